@@ -172,6 +172,7 @@ fn first_error(grm: &YaccGrammar<u32>, st: &lrtable::StateTable<u32>, sent: &[cf
 }
 
 pub fn run(src: &str) -> Outcome {
+    crate::note_case("c02_lr1", json!({"grammar": src}));
     let expected = "no conflicts for an LR(1) grammar, and no more states than the canonical automaton".to_string();
     match catch_unwind(AssertUnwindSafe(|| check(src))) {
         Err(_) => Outcome { fails: true, observed: "panic".into(), expected },
@@ -213,7 +214,41 @@ pub fn crossed_family(seed: u64) -> String {
     s
 }
 
+/// The same core { A -> 'c' . , B -> 'c' . } reached in several contexts, directly or through wrapper rules
+/// (P: 'm' A; Q: 'm' B;), after prefixes of different lengths: a state is then processed again after its successors
+/// exist, and the lookaheads that arrive late must not be forced into a successor they are not compatible with.
+pub fn late_family(seed: u64) -> String {
+    let mut r = grms::Rng(seed.wrapping_mul(0x9FB21C651E98DF25) | 1);
+    let nc = 2 + r.below(3);
+    let pres = ["'p'", "'q'", "'r'", "'k'"];
+    let sufs = ["'d'", "'e'", "'x'", "'y'"];
+    let mut alts: Vec<String> = Vec::new();
+    for i in 0..nc {
+        let len = 1 + r.below(3);
+        let prefix = vec![pres[i]; len].join(" ");
+        let wrapped = r.below(2) == 0;
+        let a = r.below(sufs.len());
+        let mut b = r.below(sufs.len() - 1);
+        if b >= a { b += 1; }
+        alts.push(format!("{} {} {}", prefix, if wrapped { "P" } else { "A" }, sufs[a]));
+        alts.push(format!("{} {} {}", prefix, if wrapped { "Q" } else { "B" }, sufs[b]));
+    }
+    for a in (1..alts.len()).rev() { let b = r.below(a + 1); alts.swap(a, b); }
+    let mut defs = vec!["P: 'm' A;\n", "Q: 'm' B;\n", "A: 'c';\n", "B: 'c';\n"];
+    for a in (1..defs.len()).rev() { let b = r.below(a + 1); defs.swap(a, b); }
+    format!("%start S\n%%\nS: {};\n{}", alts.join(" | "), defs.concat())
+}
+
 pub fn search(_tag: &str, tier: &str) -> Option<Value> {
+    for g in ["%start S\n%%\nS: 'p' P 'x' | 'p' Q 'y' | 'q' A 'd' | 'q' B 'e' | 'r' 'r' 'r' P 'e' | 'r' 'r' 'r' Q 'd';\nP: 'm' A;\nQ: 'm' B;\nA: 'c';\nB: 'c';\n"] {
+        let o = run(g);
+        if o.fails { return Some(witness("c02_lr1", json!({"grammar": g}), &o)); }
+    }
+    for seed in 1..=(if tier == "thorough" { 6000 } else { 1500 }) {
+        let g = late_family(seed);
+        let o = run(&g);
+        if o.fails { return Some(witness("c02_lr1", json!({"grammar": g}), &o)); }
+    }
     let fixed_no_prec = grms::FIXED.iter().filter(|g| !g.contains("%left") && !g.contains("%right") && !g.contains("%nonassoc"));
     for g in fixed_no_prec {
         let o = run(g);
